@@ -33,6 +33,7 @@ const E_DISCARD: u8 = 8;
 const E_OPEN: u8 = 9; // arg = inode returned
 const E_LOCK: u8 = 10; // arg = inode locked
 const E_CLOSE: u8 = 11; // arg = inode closed
+const E_UNLOCK: u8 = 12; // arg = inode unlocked
 const EVMAX: usize = 24;
 static mut EVK: [u8; EVMAX] = [0; EVMAX];
 static mut EVA: [i32; EVMAX] = [0; EVMAX];
@@ -99,7 +100,7 @@ fn g_open<P: AsRef<Path>>(_o: &OpenOptions, _p: P) -> std::io::Result<File> {
     Ok(unsafe { File::from_raw_fd(ino) })
 }
 fn g_lock_with_retry(file: &File, _mode: crate::lock::LockMode) -> Result<()> { ev(E_LOCK, file.as_raw_fd()); Ok(()) }
-fn g_wal_drop(_w: &mut EmbeddedWal) {}
+fn g_unlock(f: &File) -> std::io::Result<()> { ev(E_UNLOCK, f.as_raw_fd()); Ok(()) }
 
 static mut OP_FAILS: bool = false;
 
@@ -117,6 +118,7 @@ kani::stub_set!(staging_stubs,
     stub(crate::io::wal::EmbeddedWal::open, crate::memvid::mutation::verif_mutation::g_wal_open),
     stub(std::fs::OpenOptions::open, crate::memvid::mutation::verif_mutation::g_open),
     stub(crate::lock::FileLock::lock_with_retry, crate::memvid::mutation::verif_mutation::g_lock_with_retry),
+    stub(std::fs::File::unlock, crate::memvid::mutation::verif_mutation::g_unlock),
     stub(alloc::fmt::format, crate::verif_env::stub_format),
 );
 
@@ -126,7 +128,7 @@ verif_proof! { [C02 C03 C17 C19]
     fn c02_staging_protocol() {
         let mut toc = crate::memvid::lifecycle::empty_toc();
         let mut mv = mk_memvid(toc, mk_header(65536));
-        mv.file = unsafe { File::from_raw_fd(INODE_ORIG) };
+        leak(core::mem::replace(&mut mv.file, unsafe { File::from_raw_fd(INODE_ORIG) }));
         mv.lock = {
             let f = unsafe { File::from_raw_fd(INODE_ORIG) };
             let l = crate::lock::FileLock::acquire_with_mode(&f, crate::lock::LockMode::Exclusive);
@@ -208,5 +210,798 @@ verif_proof! { [C02 C03 C17 C19]
         }
         leak(r);
         leak(mv);
+    }
+}
+
+// ===========================================================================
+// apply_records: the step that turns acknowledged log records into frames
+// (C01, C06, C07, C08).  Inductive step: ANY two-frame table (symbolic status,
+// payload ranges, checksums), any data_end, ONE record of any kind (insert with
+// inline payload / insert reusing a payload / tombstone), optionally a second
+// insert.  The wire decoding of the record is replaced by the entry the
+// harness built (bincode/serde is out of reach; record order and sequence
+// numbers are real).
+// ===========================================================================
+#[derive(Clone, Copy)]
+struct GEntry {
+    op_insert: bool,
+    ts: i64,
+    plen: usize, // 0, 1 or 3
+    p: [u8; 3],
+    target: Option<u64>,
+    supersedes: Option<u64>,
+    reuse: Option<u64>,
+    role_chunk: bool,
+    canonical_length: Option<u64>,
+}
+static mut GENT: [GEntry; 2] = [GEntry { op_insert: true, ts: 0, plen: 0, p: [0; 3], target: None, supersedes: None, reuse: None, role_chunk: false, canonical_length: None }; 2];
+static mut GNEXT: usize = 0;
+
+fn any_entry() -> GEntry {
+    let plen: usize = kani::any();
+    kani::assume(plen == 0 || plen == 1 || plen == 3);
+    GEntry { op_insert: kani::any(), ts: kani::any(), plen, p: kani::any(), target: kani::any(), supersedes: kani::any(), reuse: kani::any(), role_chunk: false, canonical_length: kani::any() }
+}
+
+fn g_decode(_bytes: &[u8]) -> Result<WalEntry> {
+    let k = unsafe { GNEXT };
+    unsafe { GNEXT += 1; }
+    let e = unsafe { GENT[if k < 2 { k } else { 1 }] };
+    let payload = if e.plen == 0 { Vec::new() } else if e.plen == 1 { vec![e.p[0]] } else { vec![e.p[0], e.p[1], e.p[2]] };
+    Ok(WalEntry::Frame(WalEntryData {
+        timestamp: e.ts,
+        kind: None,
+        track: None,
+        payload,
+        embedding: None,
+        uri: None,
+        title: None,
+        canonical_encoding: CanonicalEncoding::Plain,
+        canonical_length: e.canonical_length,
+        metadata: None,
+        search_text: None,
+        tags: Vec::new(),
+        labels: Vec::new(),
+        extra_metadata: BTreeMap::new(),
+        content_dates: Vec::new(),
+        chunk_manifest: None,
+        role: if e.role_chunk { FrameRole::DocumentChunk } else { FrameRole::Document },
+        parent_sequence: None,
+        chunk_index: None,
+        chunk_count: None,
+        op: if e.op_insert { FrameWalOp::Insert } else { FrameWalOp::Tombstone },
+        target_frame_id: e.target,
+        supersedes_frame_id: e.supersedes,
+        reuse_payload_from: e.reuse,
+        source_sha256: None,
+        source_path: None,
+        enrichment_state: crate::types::EnrichmentState::default(),
+    }))
+}
+fn g_default_uri(_id: FrameId) -> String { String::new() }
+// every metadata map in these harnesses is empty; the real clone/drop of a BTreeMap whose
+// emptiness CBMC cannot see concretely (structs moved by memcpy) unrolls the B-tree walkers
+// Frame::clone replaced by a copy of the scalar fields: every frame in these harnesses has empty
+// strings/maps, and cloning a frame whose emptiness CBMC cannot see concretely unrolls the
+// B-tree and Vec<String> walkers (millions of symex steps).
+fn g_frame_clone(f: &Frame) -> Frame {
+    let mut c = mk_frame(f.id, f.timestamp, f.status);
+    c.payload_offset = f.payload_offset;
+    c.payload_length = f.payload_length;
+    c.checksum = f.checksum;
+    c.canonical_encoding = f.canonical_encoding;
+    c.canonical_length = f.canonical_length;
+    c.role = f.role;
+    c.parent_id = f.parent_id;
+    c.supersedes = f.supersedes;
+    c.superseded_by = f.superseded_by;
+    c
+}
+fn g_infer_title(_uri: &str) -> Option<String> { None }
+
+fn any_status() -> FrameStatus {
+    let b: u8 = kani::any();
+    kani::assume(b < 3);
+    match b { 0 => FrameStatus::Active, 1 => FrameStatus::Deleted, _ => FrameStatus::Superseded }
+}
+
+#[derive(Clone, Copy)]
+struct Snap { status: FrameStatus, off: u64, len: u64, sum0: u8, by: Option<u64>, ts: i64 }
+fn snap(f: &Frame) -> Snap { Snap { status: f.status, off: f.payload_offset, len: f.payload_length, sum0: f.checksum[0], by: f.superseded_by, ts: f.timestamp } }
+
+#[cfg(kani)]
+kani::stub_set!(apply_stubs,
+    use_stub_set(crate::verif_env::io_stubs),
+    use_stub_set(crate::verif_env::memvid_stubs),
+    stub(crate::memvid::mutation::decode_wal_entry, crate::memvid::mutation::verif_mutation::g_decode),
+    stub(crate::default_uri, crate::memvid::mutation::verif_mutation::g_default_uri),
+    stub(<crate::types::Frame as core::clone::Clone>::clone, crate::memvid::mutation::verif_mutation::g_frame_clone),
+    stub(crate::infer_title_from_uri, crate::memvid::mutation::verif_mutation::g_infer_title),
+    stub(alloc::fmt::format, crate::verif_env::stub_format),
+);
+
+/// kind: 1 = plain insert, 2 = update with new payload, 3 = payload-reusing insert, 4 = tombstone.
+/// `idx` = the frame the record refers to (0/1 existing, 2 = missing, 9 = none).  The referenced
+/// index is CONCRETE per harness instance: a write through a symbolic index into the frame table
+/// makes every frame (with its maps and strings) symbolic for CBMC and the query explodes.
+static mut VARIANT: u8 = 0;
+fn apply_step(n_records: usize, kind: u8, idx: u64, plen0: usize) {
+    let variant = unsafe { VARIANT };
+    let mut toc = crate::memvid::lifecycle::empty_toc();
+    let mut pre = [Snap { status: FrameStatus::Active, off: 0, len: 0, sum0: 0, by: None, ts: 0 }; 2];
+    // (straight-line: large structs moved by value turn loop bounds symbolic for CBMC, so the
+    // unwind bound is kept at the minimum the code under test needs)
+    unrolled_4!(2usize, i => {
+        let mut f = if variant == 2 { mk_frame(i as u64, 5, FrameStatus::Active) } else { mk_frame(i as u64, kani::any(), any_status()) };
+        if variant != 2 {
+        f.payload_offset = kani::any();
+        f.payload_length = kani::any();
+        f.checksum[0] = kani::any();
+        f.canonical_length = kani::any();
+        }
+        pre[i] = snap(&f);
+        toc.frames.push(f);
+    });
+    let mut mv = mk_memvid(toc, mk_header(64));
+    leak(core::mem::replace(&mut mv.file, open_zero_disk(200)));
+    let end0: u64 = kani::any();
+    kani::assume(end0 >= 64 && end0 <= 180);
+    if variant == 1 { kani::assume(end0 == 100); }
+    mv.data_end = end0;
+    let cpe0: u64 = kani::any();
+    mv.cached_payload_end = cpe0;
+    let mut e0 = any_entry();
+    let refer = if idx == 9 { None } else { Some(idx) };
+    e0.plen = plen0;
+    match kind {
+        1 => { e0.op_insert = true; e0.reuse = None; e0.supersedes = None; e0.target = None; }
+        2 => { e0.op_insert = true; e0.reuse = None; e0.target = None; e0.supersedes = refer; }
+        3 => { e0.op_insert = true; e0.target = None; e0.supersedes = None; e0.reuse = refer; }
+        _ => { e0.op_insert = false; e0.reuse = None; e0.supersedes = None; e0.target = refer; }
+    }
+    let e1 = { let mut e = any_entry(); e.op_insert = true; e.reuse = None; e.supersedes = None; e.target = None; e.plen = 1; e };
+    unsafe { GENT = if variant == 3 { [e0, e0] } else { [e0, e1] }; GNEXT = 0; }
+    let mut records = Vec::new();
+    if variant != 4 { records.push(WalRecord { sequence: 7, payload: vec![0u8] }); }
+    if n_records == 2 {
+        records.push(WalRecord { sequence: 8, payload: vec![0u8] });
+    }
+    let r = mv.apply_records(records);
+    let frames = &mv.toc.frames;
+    match &r {
+        Ok(delta) => {
+            assert!(unsafe { GNEXT } == n_records, "[C01] not every log record was applied exactly once");
+            let mut expect_len = 2usize;
+            let mut cursor = end0;
+            // ---- record 0 ----
+            if e0.op_insert {
+                assert!(frames.len() >= 3, "[C01] an acknowledged insert produced no frame");
+                let f = &frames[2];
+                assert!(f.id == 2, "[C06] a new frame's id is not its position in the frame table");
+                assert!(f.status == FrameStatus::Active && f.timestamp == e0.ts, "[C01] inserted frame does not carry the record's timestamp / is not active");
+                match e0.reuse {
+                    Some(src) => {
+                        assert!(src < 2 && e0.plen == 0, "[C01] payload-reusing insert accepted although its source is missing or it carries inline bytes");
+                        let s = &pre[src as usize];
+                        assert!(f.payload_offset == s.off && f.payload_length == s.len && f.checksum[0] == s.sum0, "[C07] payload-reusing update does not point at the source frame's payload");
+                    }
+                    None => {
+                        assert!(f.payload_offset == cursor && f.payload_length == e0.plen as u64, "[C01] inserted payload is not placed at the end of the data region");
+                        unrolled_4!(e0.plen, k => {
+                            assert!(disk_get(&mut mv.file, cursor + k as u64) == *e0.p.get(k).unwrap_or(&0), "[C07] stored payload bytes differ from the bytes that were put");
+                        });
+                        let want = oracle_hash(&e0.p[..e0.plen]);
+                        assert!(f.checksum[0] == want[0] && f.checksum[1] == want[1] && f.checksum[2] == want[2], "[C07] recorded payload checksum is not the checksum of the stored bytes");
+                        cursor += e0.plen as u64;
+                    }
+                }
+                if let Some(p) = e0.supersedes {
+                    assert!(p < 2, "[C08] update accepted although the frame it supersedes does not exist");
+                    assert!(frames[p as usize].status == FrameStatus::Superseded && frames[p as usize].superseded_by == Some(2), "[C08] superseded frame is still active or does not name its successor");
+                    assert!(f.supersedes == Some(p), "[C08] new version does not record which frame it supersedes");
+                }
+                expect_len = 3;
+                kani::cover!(e0.reuse.is_some(), "payload-reusing insert applied");
+                kani::cover!(e0.supersedes.is_some() && e0.reuse.is_none(), "update with new payload applied");
+            } else {
+                match e0.target {
+                    Some(t) => {
+                        assert!(t < 2, "[C08] tombstone accepted for a frame that does not exist");
+                        assert!(frames[t as usize].status == FrameStatus::Deleted, "[C08] deleted frame is still not marked deleted");
+                    }
+                    None => assert!(false, "[C08] tombstone without a target was accepted"),
+                }
+                assert!(delta.mutated_frames, "[C08] delete not reported as a mutation (indexes would not be rebuilt)");
+                kani::cover!(true, "tombstone applied");
+            }
+            // ---- record 1 (plain insert) ----
+            if n_records == 2 {
+                assert!(frames.len() == expect_len + 1, "[C01] second acknowledged insert produced no frame (or extra frames)");
+                let f = &frames[expect_len];
+                assert!(f.id == expect_len as u64, "[C06] frame ids are not dense in put order");
+                assert!(f.payload_offset == cursor && f.payload_length == e1.plen as u64, "[C01] second payload does not follow the first one");
+                unrolled_4!(e1.plen, k => {
+                    assert!(disk_get(&mut mv.file, cursor + k as u64) == *e1.p.get(k).unwrap_or(&0), "[C07] stored payload bytes differ from the bytes that were put");
+                });
+                cursor += e1.plen as u64;
+                expect_len += 1;
+            }
+            assert!(frames.len() == expect_len, "[C01] frame table has extra or missing frames after replay");
+            // untouched frames keep identity and payload
+            unrolled_4!(2usize, j => {
+                assert!(frames[j].id == j as u64 && frames[j].payload_offset == pre[j].off && frames[j].payload_length == pre[j].len && frames[j].timestamp == pre[j].ts,
+                        "[C06] replay changed the identity or payload location of an existing frame");
+                let touched = (e0.op_insert && e0.supersedes == Some(j as u64)) || (!e0.op_insert && e0.target == Some(j as u64));
+                if !touched {
+                    assert!(frames[j].status == pre[j].status, "[C08] replay changed the status of a frame no record refers to");
+                }
+            });
+            assert!(mv.data_end == core::cmp::max(end0, cursor), "[C01] data_end does not cover the payloads just written");
+            assert!(mv.cached_payload_end >= cpe0 && (cursor == end0 || mv.cached_payload_end >= cursor), "[C24] cached payload end does not cover the payloads just written");
+        }
+        Err(_) => {
+            // only malformed records may be refused
+            let bad0 = if e0.op_insert {
+                (e0.reuse.is_some() && (e0.plen != 0 || e0.reuse.map_or(false, |s| s >= 2))) || e0.supersedes.map_or(false, |p| p >= 2)
+            } else {
+                e0.target.map_or(true, |t| t >= 2)
+            };
+            assert!(bad0, "[C01] a well-formed acknowledged record was refused during replay");
+            kani::cover!(true, "malformed record refused");
+        }
+    }
+    leak(r);
+    leak(mv);
+}
+
+verif_proof! { [C01 C06 C07 C24]
+    #[kani::unwind(2)]
+    #[kani::use_stub_set(crate::memvid::mutation::verif_mutation::apply_stubs)]
+    fn c01_apply_plain_insert() { apply_step(1, 1, 9, 3); }
+}
+verif_proof! { [C01 C06 C07]
+    #[kani::unwind(2)]
+    #[kani::use_stub_set(crate::memvid::mutation::verif_mutation::apply_stubs)]
+    fn c01_apply_empty_payload() { apply_step(1, 1, 9, 0); }
+}
+verif_proof! { [C01 C06 C07 C08]
+    #[kani::unwind(2)]
+    #[kani::use_stub_set(crate::memvid::mutation::verif_mutation::apply_stubs)]
+    fn c01_apply_update_of_1() { apply_step(1, 2, 1, 1); }
+}
+verif_proof! { [C01 C08]
+    #[kani::unwind(2)]
+    #[kani::use_stub_set(crate::memvid::mutation::verif_mutation::apply_stubs)]
+    fn c01_apply_update_of_missing() { apply_step(1, 2, 2, 1); }
+}
+verif_proof! { [C01 C06 C07 C08]
+    #[kani::unwind(2)]
+    #[kani::use_stub_set(crate::memvid::mutation::verif_mutation::apply_stubs)]
+    fn c01_apply_reuse_of_0() { apply_step(1, 3, 0, 0); }
+}
+verif_proof! { [C01 C07]
+    #[kani::unwind(2)]
+    #[kani::use_stub_set(crate::memvid::mutation::verif_mutation::apply_stubs)]
+    fn c01_apply_reuse_with_inline_bytes() { apply_step(1, 3, 0, 1); }
+}
+verif_proof! { [C01 C07]
+    #[kani::unwind(2)]
+    #[kani::use_stub_set(crate::memvid::mutation::verif_mutation::apply_stubs)]
+    fn c01_apply_reuse_of_missing() { apply_step(1, 3, 2, 0); }
+}
+verif_proof! { [C01 C06 C08]
+    #[kani::unwind(2)]
+    #[kani::use_stub_set(crate::memvid::mutation::verif_mutation::apply_stubs)]
+    fn c01_apply_tombstone_0() { apply_step(1, 4, 0, 0); }
+}
+verif_proof! { [C01 C08]
+    #[kani::unwind(2)]
+    #[kani::use_stub_set(crate::memvid::mutation::verif_mutation::apply_stubs)]
+    fn c01_apply_tombstone_missing() { apply_step(1, 4, 2, 0); }
+}
+verif_proof! { [C01 C08]
+    #[kani::unwind(2)]
+    #[kani::use_stub_set(crate::memvid::mutation::verif_mutation::apply_stubs)]
+    fn c01_apply_tombstone_without_target() { apply_step(1, 4, 9, 0); }
+}
+verif_proof! { [C01 C06 C07]
+    #[kani::unwind(3)]
+    #[kani::use_stub_set(crate::memvid::mutation::verif_mutation::apply_stubs)]
+    fn c01_apply_two_inserts() { apply_step(2, 1, 9, 3); }
+}
+verif_proof! { [C01 C06 C07]
+    #[kani::unwind(3)]
+    #[kani::use_stub_set(crate::memvid::mutation::verif_mutation::apply_stubs)]
+    fn c01_apply_reuse_then_insert() { apply_step(2, 3, 0, 0); }
+}
+verif_proof! { [C01 C06 C08]
+    #[kani::unwind(3)]
+    #[kani::use_stub_set(crate::memvid::mutation::verif_mutation::apply_stubs)]
+    fn c01_apply_tombstone_then_insert() { apply_step(2, 4, 1, 0); }
+}
+
+// ===========================================================================
+// rewrite_toc_footer: what a commit leaves at the end of the file (C02, C03, C20).
+// TOC serialisation is replaced by an arbitrary 5-byte blob.
+// ===========================================================================
+static mut TOCBLOB: [u8; 5] = [0; 5];
+fn g_prepare_toc(toc: &mut crate::types::Toc) -> Result<Vec<u8>> {
+    let b = unsafe { TOCBLOB };
+    toc.toc_checksum = oracle_hash(&b);
+    Ok(vec![b[0], b[1], b[2], b[3], b[4]])
+}
+#[cfg(kani)]
+kani::stub_set!(footer_stubs,
+    use_stub_set(crate::verif_env::io_stubs),
+    use_stub_set(crate::verif_env::memvid_stubs),
+    stub(crate::memvid::lifecycle::prepare_toc_bytes, crate::memvid::mutation::verif_mutation::g_prepare_toc),
+    stub(alloc::fmt::format, crate::verif_env::stub_format),
+);
+verif_proof! { [C02 C03 C20]
+    #[kani::unwind(5)]
+    #[kani::use_stub_set(crate::memvid::mutation::verif_mutation::footer_stubs)]
+    fn c02_rewrite_toc_footer() {
+        let toc = crate::memvid::lifecycle::empty_toc();
+        let wal_size: u64 = kani::any();
+        kani::assume(wal_size >= 1 && wal_size <= 300);
+        let mut header = mk_header(wal_size);
+        header.wal_offset = 16;
+        let fo: u64 = kani::any();
+        kani::assume(fo >= 16 && fo <= 200);
+        header.footer_offset = fo;
+        let mut mv = mk_memvid(toc, header);
+        let old_len: u64 = kani::any();
+        kani::assume(old_len <= 400);
+        leak(core::mem::replace(&mut mv.file, open_zero_disk(old_len)));
+        mv.generation = kani::any();
+        let blob: [u8; 5] = kani::any();
+        unsafe { TOCBLOB = blob; EV_N = 0; }
+        let r = mv.rewrite_toc_footer();
+        assert!(r.is_ok(), "[C02] rewrite_toc_footer failed although no I/O failed");
+        // TOC bytes at footer_offset, footer right after
+        let mut k = 0;
+        while k < 5 {
+            assert!(disk_get(&mut mv.file, fo + k as u64) == blob[k], "[C02] TOC bytes are not where the header's footer_offset points");
+            k += 1;
+        }
+        let mut fbytes = [0u8; crate::footer::FOOTER_SIZE];
+        let mut k = 0;
+        while k < crate::footer::FOOTER_SIZE {
+            fbytes[k] = disk_get(&mut mv.file, fo + 5 + k as u64);
+            k += 1;
+        }
+        match CommitFooter::decode(&fbytes) {
+            Some(f) => {
+                assert!(f.toc_len == 5, "[C02] commit footer records a wrong TOC length");
+                assert!(f.generation == mv.generation, "[C02] commit footer records a wrong generation");
+                let want = oracle_hash(&blob);
+                assert!(f.toc_hash[0] == want[0] && f.toc_hash[1] == want[1] && f.toc_hash[2] == want[2] && f.toc_hash[3] == want[3], "[C20] commit footer hash is not the hash of the TOC bytes written");
+            }
+            None => assert!(false, "[C02] no decodable commit footer after the TOC"),
+        }
+        // file length: exactly up to the footer, never cutting into the WAL region
+        let want_len = core::cmp::max(fo + 5 + crate::footer::FOOTER_SIZE as u64, 16 + wal_size);
+        assert!(unsafe { DISK_LEN } as u64 == want_len, "[C02] file length after commit is not footer end (or WAL end)");
+        // C03: the last file mutation is followed by an fsync
+        let n = unsafe { EV_N };
+        assert!(n >= 1 && n < EV_MAX && unsafe { EV_KIND[n - 1] } == EV_SYNC, "[C03] TOC/footer written but not fsynced before returning");
+        kani::cover!(old_len > want_len, "file shrinks to the new footer");
+        kani::cover!(want_len == 16 + wal_size, "clamped to the WAL end");
+        leak(r);
+        leak(mv);
+    }
+}
+
+// ===========================================================================
+// recover_wal: replay at open time (C04, C01).  Everything below recover_wal
+// is a ghost: the log hands out N pending records, apply_records appends N
+// frames, rebuild_indexes persists the TOC and the header (as the real one
+// does at its end), record_checkpoint moves the sequence into the header.
+// The ghosts keep the DURABLE pair (frames in the durable TOC, wal_sequence
+// in the durable header) after every persisting call; a crash may happen after
+// any of them, and the next open replays every record above the durable
+// sequence on top of the durable TOC.
+// ===========================================================================
+static mut W_SEQ0: u64 = 0; // sequence of the last record that was already applied
+static mut W_N: u64 = 0; // pending records: W_SEQ0+1 ..= W_SEQ0+W_N
+static mut D_FRAMES: usize = 0; // durable TOC: number of frames
+static mut D_SEQ: u64 = 0; // durable header: wal_sequence
+static mut FRAMES0: usize = 0;
+static mut DUP_POSSIBLE: bool = false; // some crash point replays a record twice
+static mut LOSS_POSSIBLE: bool = false; // some crash point loses an acknowledged record
+static mut R_STEP_FAIL: u8 = 0; // which ghost fails (0 = none)
+
+fn durable_check() {
+    unsafe {
+        // records the durable TOC already contains
+        let in_toc = (D_FRAMES - FRAMES0) as u64;
+        // records a later open would replay: those above D_SEQ
+        let replay_from = D_SEQ;
+        let first_replayed = replay_from + 1;
+        // duplicates: durable TOC contains record i but the header would replay it again
+        if in_toc > 0 && first_replayed <= W_SEQ0 + in_toc {
+            DUP_POSSIBLE = true;
+        }
+        // loss: header already covers a record the durable TOC does not contain
+        if D_SEQ > W_SEQ0 + in_toc {
+            LOSS_POSSIBLE = true;
+        }
+    }
+}
+fn r_records_after(_w: &mut EmbeddedWal, sequence: u64) -> Result<Vec<WalRecord>> {
+    let mut v = Vec::new();
+    unsafe {
+        let mut i = 1;
+        while i <= W_N {
+            if W_SEQ0 + i > sequence {
+                v.push(WalRecord { sequence: W_SEQ0 + i, payload: Vec::new() });
+            }
+            i += 1;
+        }
+    }
+    Ok(v)
+}
+fn r_apply(mv: &mut Memvid, records: Vec<WalRecord>) -> Result<IngestionDelta> {
+    if unsafe { R_STEP_FAIL } == 1 {
+        leak(records);
+        return Err(MemvidError::CheckpointFailed { reason: "injected".into() });
+    }
+    let mut delta = IngestionDelta::default();
+    let mut i = 0;
+    while i < records.len() {
+        let id = mv.toc.frames.len() as u64;
+        mv.toc.frames.push(mk_frame(id, 0, FrameStatus::Active));
+        delta.inserted_frames.push(id);
+        i += 1;
+    }
+    leak(records);
+    Ok(delta)
+}
+fn r_rebuild(mv: &mut Memvid, _e: &[(FrameId, Vec<f32>)], _f: &[FrameId]) -> Result<()> {
+    if unsafe { R_STEP_FAIL } == 2 {
+        return Err(MemvidError::CheckpointFailed { reason: "injected".into() });
+    }
+    // as the real rebuild_indexes ends: rewrite_toc_footer, then persist_header
+    unsafe {
+        D_FRAMES = mv.toc.frames.len();
+        durable_check();
+        D_SEQ = mv.header.wal_sequence;
+        durable_check();
+    }
+    Ok(())
+}
+fn r_checkpoint(_w: &mut EmbeddedWal, header: &mut crate::types::Header) -> Result<()> {
+    unsafe { header.wal_sequence = W_SEQ0 + W_N; }
+    Ok(())
+}
+fn r_persist_header(_f: &mut File, h: &crate::types::Header) -> Result<()> {
+    if unsafe { R_STEP_FAIL } == 3 {
+        return Err(MemvidError::CheckpointFailed { reason: "injected".into() });
+    }
+    unsafe {
+        D_SEQ = h.wal_sequence;
+        durable_check();
+    }
+    Ok(())
+}
+fn r_sync(_f: &File) -> std::io::Result<()> { Ok(()) }
+
+#[cfg(kani)]
+kani::stub_set!(recover_stubs,
+    use_stub_set(crate::verif_env::memvid_stubs),
+    stub(crate::io::wal::EmbeddedWal::records_after, crate::memvid::mutation::verif_mutation::r_records_after),
+    stub(crate::io::wal::EmbeddedWal::record_checkpoint, crate::memvid::mutation::verif_mutation::r_checkpoint),
+    stub(crate::memvid::lifecycle::Memvid::apply_records, crate::memvid::mutation::verif_mutation::r_apply),
+    stub(crate::memvid::lifecycle::Memvid::rebuild_indexes, crate::memvid::mutation::verif_mutation::r_rebuild),
+    stub(crate::persist_header, crate::memvid::mutation::verif_mutation::r_persist_header),
+    stub(std::fs::File::sync_all, crate::memvid::mutation::verif_mutation::r_sync),
+    stub(alloc::fmt::format, crate::verif_env::stub_format),
+);
+
+fn recover_setup(n_pending: u64, frames0: usize, seq0: u64) -> Memvid {
+    let mut toc = crate::memvid::lifecycle::empty_toc();
+    let mut i = 0;
+    while i < frames0 {
+        toc.frames.push(mk_frame(i as u64, 0, FrameStatus::Active));
+        i += 1;
+    }
+    let mut mv = mk_memvid(toc, mk_header(65536));
+    mv.header.wal_sequence = seq0;
+    unsafe {
+        W_SEQ0 = seq0;
+        W_N = n_pending;
+        FRAMES0 = frames0;
+        D_FRAMES = frames0;
+        D_SEQ = seq0;
+        DUP_POSSIBLE = false;
+        LOSS_POSSIBLE = false;
+    }
+    mv
+}
+
+// uninterrupted recovery: every pending record applied once, checkpoint taken, second run is a no-op
+verif_proof! { [C04 C01]
+    #[kani::unwind(5)]
+    #[kani::use_stub_set(crate::memvid::mutation::verif_mutation::recover_stubs)]
+    fn c04_recover_uninterrupted_2() { recover_uninterrupted(2); }
+}
+verif_proof! { [C04 C01]
+    #[kani::unwind(5)]
+    #[kani::use_stub_set(crate::memvid::mutation::verif_mutation::recover_stubs)]
+    fn c04_recover_uninterrupted_1() { recover_uninterrupted(1); }
+}
+verif_proof! { [C04 C01]
+    #[kani::unwind(5)]
+    #[kani::use_stub_set(crate::memvid::mutation::verif_mutation::recover_stubs)]
+    fn c04_recover_nothing_pending() { recover_uninterrupted(0); }
+}
+// (the number of pending records is concrete per instance: containers of symbolic length are intractable)
+fn recover_uninterrupted(n: u64) {
+    {
+        let f0: usize = 1;
+        let seq0: u64 = kani::any();
+        kani::assume(seq0 < 1 << 40);
+        let mut mv = recover_setup(n, f0, seq0);
+        unsafe { R_STEP_FAIL = 0; }
+        mv.pending_frame_inserts = kani::any();
+        let r = mv.recover_wal();
+        assert!(r.is_ok(), "[C04] recovery failed although nothing failed");
+        assert!(mv.toc.frames.len() == f0 + n as usize, "[C04] recovery did not apply every pending record exactly once");
+        assert!(mv.header.wal_sequence == seq0 + n, "[C04] recovery did not checkpoint the replayed records");
+        if n > 0 {
+            assert!(unsafe { D_FRAMES } == f0 + n as usize && unsafe { D_SEQ } == seq0 + n, "[C04] recovered state was not made durable (TOC and header)");
+            assert!(mv.pending_frame_inserts == 0, "[C06] pending insert counter not reset after replay: next_frame_id would skip ids");
+        }
+        // opening a recovered file again changes no frame
+        let r2 = mv.recover_wal();
+        assert!(r2.is_ok() && mv.toc.frames.len() == f0 + n as usize, "[C04] a second recovery changed the frames (not idempotent)");
+        assert!(!unsafe { LOSS_POSSIBLE }, "[C04] at some crash point the durable header already covers a record the durable TOC does not contain (record lost)");
+        kani::cover!(mv.toc.frames.len() == f0 + n as usize, "recovery ran");
+        leak(r);
+        leak(r2);
+        leak(mv);
+    }
+}
+
+// crash safety: no crash point may leave a durable (TOC, header) pair from
+// which the next open replays a record that the durable TOC already contains
+verif_proof! { [C04]
+    #[kani::unwind(5)]
+    #[kani::use_stub_set(crate::memvid::mutation::verif_mutation::recover_stubs)]
+    fn c04_recover_crash_points() {
+        let n: u64 = 1;
+        let seq0: u64 = kani::any();
+        kani::assume(seq0 < 1 << 40);
+        let mut mv = recover_setup(n, 1, seq0);
+        unsafe { R_STEP_FAIL = 0; }
+        let r = mv.recover_wal();
+        assert!(r.is_ok(), "[C04] recovery failed although nothing failed");
+        assert!(!unsafe { DUP_POSSIBLE }, "[C04] a crash during recovery (after the TOC with the replayed frames is durable, before the header's log sequence is) makes the next open replay the same records again: duplicated frames");
+        kani::cover!(true, "recovery ran");
+        leak(r);
+        leak(mv);
+    }
+}
+
+// a failing step leaves the checkpoint untouched (records stay pending for the next open)
+verif_proof! { [C04]
+    #[kani::unwind(5)]
+    #[kani::use_stub_set(crate::memvid::mutation::verif_mutation::recover_stubs)]
+    fn c04_recover_step_failure() {
+        let seq0: u64 = kani::any();
+        kani::assume(seq0 < 1 << 40);
+        let mut mv = recover_setup(1, 1, seq0);
+        let which: u8 = kani::any();
+        kani::assume(which == 1 || which == 2);
+        unsafe { R_STEP_FAIL = which; }
+        let r = mv.recover_wal();
+        assert!(r.is_err(), "[C04] recovery reported success although a step failed");
+        assert!(mv.header.wal_sequence == seq0 && unsafe { D_SEQ } == seq0, "[C04] a failed recovery advanced the log checkpoint: the records would never be replayed");
+        kani::cover!(which == 2, "index rebuild failure");
+        leak(r);
+        leak(mv);
+    }
+}
+
+// probe (not registered): is an entry returned through Result<WalEntry> still concrete for CBMC?
+verif_proof! { [env]
+    #[kani::unwind(3)]
+    #[kani::use_stub_set(crate::memvid::mutation::verif_mutation::apply_stubs)]
+    fn probe_decode_transport() {
+        let mut e0 = any_entry();
+        e0.plen = 3;
+        unsafe { GENT = [e0, e0]; GNEXT = 0; }
+        let bytes = vec![0u8];
+        let r = decode_wal_entry(&bytes);
+        let entry = match r {
+            Ok(WalEntry::Frame(entry)) => entry,
+            Err(e) => { leak(e); return; }
+        };
+        let m = entry.extra_metadata.clone();
+        let t = entry.tags.clone();
+        assert!(m.is_empty() && t.is_empty());
+        leak(m); leak(t); leak(entry); leak(bytes);
+    }
+}
+verif_proof! { [env]
+    #[kani::unwind(3)]
+    #[kani::use_stub_set(crate::memvid::mutation::verif_mutation::apply_stubs)]
+    fn probe_decode_in_loop() {
+        let mut e0 = any_entry();
+        e0.plen = 3;
+        e0.op_insert = false;
+        let e1 = { let mut e = any_entry(); e.op_insert = true; e.reuse = None; e.supersedes = None; e.target = None; e.plen = 1; e };
+        unsafe { GENT = [e0, e1]; GNEXT = 0; }
+        let mut records = Vec::new();
+        records.push(WalRecord { sequence: 7, payload: vec![0u8] });
+        let mut n = 0;
+        for record in records {
+            let entry = match decode_wal_entry(&record.payload) {
+                Ok(WalEntry::Frame(entry)) => entry,
+                Err(e) => { leak(e); return; }
+            };
+            match entry.op {
+                FrameWalOp::Insert => {
+                    let m = entry.extra_metadata.clone();
+                    let t = entry.tags.clone();
+                    assert!(m.is_empty() && t.is_empty());
+                    leak(m); leak(t);
+                }
+                FrameWalOp::Tombstone => { n += 1; }
+            }
+        }
+        assert!(n == 1);
+    }
+}
+
+verif_proof! { [env]
+    #[kani::unwind(2)]
+    #[kani::use_stub_set(crate::memvid::mutation::verif_mutation::apply_stubs)]
+    fn probe_apply_v1() { unsafe { VARIANT = 4; } apply_step(1, 4, 0, 0); }
+}
+verif_proof! { [env]
+    #[kani::unwind(2)]
+    #[kani::use_stub_set(crate::memvid::mutation::verif_mutation::apply_stubs)]
+    fn probe_apply_v2() { unsafe { VARIANT = 2; } apply_step(1, 4, 0, 0); }
+}
+
+// ===========================================================================
+// Commit wiring (C01, C03, C40): commit_from_records and
+// commit_skip_indexes_inner with everything below them ghosted (same ghosts
+// as recovery, plus a ghost TOC/footer rewrite).  One pending record.
+// ===========================================================================
+const W_APPLY: u8 = 1;
+const W_REBUILD: u8 = 2;
+const W_REWRITE: u8 = 3;
+const W_CHECKPOINT: u8 = 4;
+const W_PERSIST: u8 = 5;
+const W_SYNC: u8 = 6;
+static mut WLOG: [u8; 12] = [0; 12];
+static mut WN: usize = 0;
+static mut W_FAIL_APPLY: bool = false;
+fn wlog(k: u8) { unsafe { if WN < 12 { WLOG[WN] = k; } WN += 1; } }
+fn wpos(k: u8) -> usize {
+    let n = unsafe { WN };
+    let mut found = usize::MAX;
+    unrolled_128!(n, i => { if i < 12 && found == usize::MAX && unsafe { WLOG[i] } == k { found = i; } });
+    found
+}
+fn w_apply(mv: &mut Memvid, records: Vec<WalRecord>) -> Result<IngestionDelta> {
+    wlog(W_APPLY);
+    if unsafe { W_FAIL_APPLY } {
+        leak(records);
+        return Err(MemvidError::CheckpointFailed { reason: "injected".into() });
+    }
+    let mut delta = IngestionDelta::default();
+    if records.len() == 1 {
+        let id = mv.toc.frames.len() as u64;
+        mv.toc.frames.push(mk_frame(id, 0, FrameStatus::Active));
+        delta.inserted_frames.push(id);
+        mv.data_end = mv.data_end.saturating_add(3);
+    }
+    leak(records);
+    Ok(delta)
+}
+fn w_rebuild(_mv: &mut Memvid, _e: &[(FrameId, Vec<f32>)], _f: &[FrameId]) -> Result<()> { wlog(W_REBUILD); Ok(()) }
+fn w_rewrite(_mv: &mut Memvid) -> Result<()> { wlog(W_REWRITE); Ok(()) }
+fn w_checkpoint(_w: &mut EmbeddedWal, header: &mut crate::types::Header) -> Result<()> { wlog(W_CHECKPOINT); header.wal_sequence += 1; Ok(()) }
+fn w_persist_header(_f: &mut File, _h: &crate::types::Header) -> Result<()> { wlog(W_PERSIST); Ok(()) }
+fn w_sync(_f: &File) -> std::io::Result<()> { wlog(W_SYNC); Ok(()) }
+#[cfg(kani)]
+kani::stub_set!(wiring_stubs,
+    use_stub_set(crate::verif_env::memvid_stubs),
+    stub(crate::io::wal::EmbeddedWal::record_checkpoint, crate::memvid::mutation::verif_mutation::w_checkpoint),
+    stub(crate::memvid::lifecycle::Memvid::apply_records, crate::memvid::mutation::verif_mutation::w_apply),
+    stub(crate::memvid::lifecycle::Memvid::rebuild_indexes, crate::memvid::mutation::verif_mutation::w_rebuild),
+    stub(crate::memvid::lifecycle::Memvid::rewrite_toc_footer, crate::memvid::mutation::verif_mutation::w_rewrite),
+    stub(crate::persist_header, crate::memvid::mutation::verif_mutation::w_persist_header),
+    stub(std::fs::File::sync_all, crate::memvid::mutation::verif_mutation::w_sync),
+    stub(alloc::fmt::format, crate::verif_env::stub_format),
+);
+
+fn commit_wiring(skip_indexes: bool) {
+    let mut toc = crate::memvid::lifecycle::empty_toc();
+    toc.frames.push(mk_frame(0, 0, FrameStatus::Active));
+    toc.time_index = Some(crate::types::TimeIndexManifest { bytes_offset: 1, bytes_length: 1, entry_count: 1, checksum: [0; 32] });
+    let mut mv = mk_memvid(toc, mk_header(65536));
+    let seq0: u64 = kani::any();
+    kani::assume(seq0 < 1 << 40);
+    mv.header.wal_sequence = seq0;
+    let gen0: u64 = kani::any();
+    mv.generation = gen0;
+    mv.pending_frame_inserts = kani::any();
+    mv.dirty = true;
+    mv.data_end = 100;
+    unsafe { WN = 0; W_FAIL_APPLY = kani::any(); }
+    let mut records = Vec::new();
+    records.push(WalRecord { sequence: seq0 + 1, payload: Vec::new() });
+    let r = if skip_indexes { mv.commit_skip_indexes_inner(records) } else { mv.commit_from_records(records, CommitMode::Full) };
+    let n = unsafe { WN };
+    assert!(n < 12, "[env] wiring log overflow");
+    assert!(wpos(W_APPLY) == 0, "[C01] commit did not start by applying the pending records");
+    match &r {
+        Ok(()) => {
+            assert!(!unsafe { W_FAIL_APPLY }, "[C01] commit reported success although replay failed");
+            assert!(mv.toc.frames.len() == 2, "[C01] committed frame missing after commit");
+            let (i_rw, i_cp, i_ph, i_sy) = (wpos(W_REWRITE), wpos(W_CHECKPOINT), wpos(W_PERSIST), wpos(W_SYNC));
+            assert!(i_rw != usize::MAX && i_cp != usize::MAX && i_ph != usize::MAX && i_sy != usize::MAX, "[C01] commit skipped the TOC rewrite, the log checkpoint, the header write or the fsync");
+            assert!(i_rw < i_cp && i_cp < i_ph && i_ph < i_sy, "[C03] commit steps out of order (TOC/footer, then checkpoint into the header, then header write, then fsync)");
+            assert!(mv.header.wal_sequence == seq0 + 1, "[C01] log not checkpointed by commit: the records would be replayed again");
+            assert!(mv.pending_frame_inserts == 0 && !mv.dirty, "[C06] pending-insert counter / dirty flag not reset by commit");
+            assert!(mv.generation == gen0.wrapping_add(1), "[C02] commit did not advance the generation");
+            if skip_indexes {
+                assert!(wpos(W_REBUILD) == usize::MAX, "[C40] index-skipping commit rebuilt indexes");
+                assert!(mv.toc.time_index.is_none() && mv.toc.indexes.lex.is_none() && mv.toc.segment_catalog.time_segments.is_empty(), "[C40] index-skipping commit left stale index manifests in the TOC");
+                assert!(mv.header.footer_offset == mv.data_end, "[C40] index-skipping commit did not place the footer right after the payloads");
+            } else {
+                let i_rb = wpos(W_REBUILD);
+                assert!(i_rb != usize::MAX && i_rb < i_rw, "[C01] commit with new frames did not rebuild the indexes before writing the TOC");
+            }
+            kani::cover!(true, "commit succeeded");
+        }
+        Err(_) => {
+            assert!(unsafe { W_FAIL_APPLY }, "[C01] commit failed although nothing failed");
+            assert!(wpos(W_CHECKPOINT) == usize::MAX && wpos(W_PERSIST) == usize::MAX, "[C01] failed commit still checkpointed the log: acknowledged records would be dropped");
+            assert!(mv.header.wal_sequence == seq0, "[C01] failed commit advanced the log checkpoint");
+            kani::cover!(true, "replay failure propagated");
+        }
+    }
+    leak(r);
+    leak(mv);
+}
+verif_proof! { [C01 C03 C06]
+    #[kani::unwind(4)]
+    #[kani::use_stub_set(crate::memvid::mutation::verif_mutation::wiring_stubs)]
+    fn c01_commit_wiring() { commit_wiring(false); }
+}
+verif_proof! { [C40 C01]
+    #[kani::unwind(4)]
+    #[kani::use_stub_set(crate::memvid::mutation::verif_mutation::wiring_stubs)]
+    fn c40_commit_skip_indexes_wiring() { commit_wiring(true); }
+}
+
+// batch mode: begin_batch switches per-append fsync off, end_batch flushes BEFORE switching it back on
+static mut FLUSHED_WHILE_SKIP: bool = false;
+static mut SKIP_NOW: bool = false;
+fn b_set_skip(w: &mut EmbeddedWal, skip: bool) { unsafe { SKIP_NOW = skip; } let _ = w; }
+fn b_flush(_w: &mut EmbeddedWal) -> Result<()> { unsafe { if SKIP_NOW { FLUSHED_WHILE_SKIP = true; } } wlog(W_SYNC); Ok(()) }
+verif_proof! { [C40 C03]
+    #[kani::unwind(3)]
+    #[kani::use_stub_set(crate::verif_env::memvid_stubs)]
+    #[kani::stub(crate::io::wal::EmbeddedWal::set_skip_sync, b_set_skip)]
+    #[kani::stub(crate::io::wal::EmbeddedWal::flush, b_flush)]
+    fn c40_batch_mode_flush() {
+        let toc = crate::memvid::lifecycle::empty_toc();
+        let mut mv = mk_memvid(toc, mk_header(65536));
+        unsafe { WN = 0; FLUSHED_WHILE_SKIP = false; SKIP_NOW = false; }
+        let skip: bool = kani::any();
+        let opts = PutManyOpts { skip_sync: skip, wal_pre_size_bytes: 0, ..PutManyOpts::default() };
+        let r = mv.begin_batch(opts);
+        assert!(r.is_ok() && mv.batch_opts.is_some() && unsafe { SKIP_NOW } == skip, "[C40] begin_batch did not install the batch options");
+        let r2 = mv.end_batch();
+        assert!(r2.is_ok() && mv.batch_opts.is_none() && !unsafe { SKIP_NOW }, "[C40] end_batch did not restore normal operation");
+        assert!(wpos(W_SYNC) != usize::MAX, "[C03] end_batch returned without flushing the appends that skipped their fsync");
+        kani::cover!(skip, "batch with skip_sync");
+        leak(r); leak(r2); leak(mv);
     }
 }
